@@ -44,6 +44,7 @@ def dispatch (line : String) : String :=
   | "C19" :: rest => Endpoint.handle rest
   | "C09" :: rest => Endpoint.handle rest
   | "C17" :: rest => ErrorM.handle rest
+  | "C06" :: "emit" :: rest => Emit.handle Gen.Keywords.escaped ("emit" :: rest)
   | "C06" :: rest => Body.handle rest
   | "C18" :: rest => Body.handle rest
   | "C08" :: rest => LogSafety.handle rest
